@@ -5,6 +5,7 @@ import (
 	"fmt"
 	"strings"
 	"sync/atomic"
+	"time"
 	"unicode/utf8"
 
 	"verif/internal/core"
@@ -306,9 +307,62 @@ func runC17(env *core.Env) {
 			samples.add(map[string]interface{}{"case": c.String(), "stored": clipS(want, 40)})
 		}
 	})
+	// the clock as an environment answer: an update recorded within the same clock reading as the creation, or after
+	// the clock stepped back. The text of the update is what show returns, directly and after compact.
+	var clockCases int64
+	{
+		type cj struct {
+			text  string
+			delta time.Duration
+		}
+		var cjs []cj
+		for _, sym := range c17Alphabet {
+			for _, d := range []time.Duration{0, -time.Hour, time.Nanosecond} {
+				cjs = append(cjs, cj{"x" + sym + "y", d})
+			}
+		}
+		env.Parallel(len(cjs), func(w *core.Worker, i int) {
+			c := cjs[i]
+			if !utf8.ValidString(c.text) {
+				return
+			}
+			l := newSynLog()
+			id, ep := core.IDFor(9601), core.IDFor(9602)
+			created := l.t.Add(time.Hour)
+			cts := created.Format(time.RFC3339Nano)
+			uts := created.Add(c.delta).Format(time.RFC3339Nano)
+			for _, it := range []struct {
+				id, typ string
+			}{{id, "new_task"}, {ep, "new_epic"}} {
+				l.ev(it.typ, cts, map[string]interface{}{"id": it.id, "uuid": "u-" + it.id, "epic_id": "", "state": "todo", "title": "as created", "body": "as created", "created_at": cts})
+				l.ev("title", uts, map[string]interface{}{"id": it.id, "title": c.text, "ts": uts})
+				l.ev("body", uts, map[string]interface{}{"id": it.id, "body": c.text, "ts": uts})
+			}
+			st := core.Store{".ergo/plans.jsonl": l.Bytes(), ".ergo/lock": nil}
+			st.Materialize(w.Proj)
+			atomic.AddInt64(&clockCases, 1)
+			for round, label := range []string{"directly", "after compact"} {
+				var steps []core.Req
+				if round == 1 {
+					steps = []core.Req{core.R("", "--json", "compact")}
+					w.Run(core.R(w.Proj, "--json", "compact"))
+				}
+				for _, target := range []string{id, ep} {
+					sh, err := core.ParseShow(w.Run(core.R(w.Proj, "--json", "show", target)).Out)
+					if err != nil || sh.Title != c.text || sh.Body != c.text {
+						report(env, "C17 kind=update-in-the-same-or-an-earlier-clock-reading-lost "+strings.ReplaceAll(label, " ", "-"),
+							fmt.Sprintf("update stamped %v relative to created_at, text %q: show %s returns title %q body %q", c.delta, c.text, label, sh.Title, sh.Body),
+							mkTrace(st, "update not later than created_at", append(steps, core.R("", "--json", "show", target)), Assert{Kind: "out_lacks", Step: len(steps) + 1, Text: jsonEsc(c.text)}))
+						return
+					}
+				}
+			}
+		})
+	}
 	validated := conf.run(env)
 	env.Finish("model_checking", map[string]interface{}{
-		"states": len(texts), "transitions": evals, "traces_validated_against_impl": validated, "samples": samples.list,
+		"clock_cases": clockCases,
+		"states":      len(texts), "transitions": evals, "traces_validated_against_impl": validated, "samples": samples.list,
 		"evaluations": evals, "distinct_nontrivial": classes.len(), "exhaustive": env.TimeLeft(),
 		"rule":  fmt.Sprintf("all strings of length 1-%d over a %d-symbol alphabet (one symbol per transformation: quotes, backslash, control chars, NUL, HTML chars, NEL/NBSP/LS/PS (trimmed by TrimSpace), BOM, combining mark, multi-byte, astral, U+FFFD/U+FFFF) plus 20 long texts (64 KiB boundaries, 128 KiB, 300 KB; plain, 3-byte runes, alternating space / newline) x {title, body} x {new task, new epic, set, plan epic, plan task} x {JSON stdin, flags, --body-stdin}; each read back by show --json directly and after compact; distinct = (field, path, mode, accepted?)", map[bool]int{false: 2, true: 3}[env.Thorough()], len(c17Alphabet)),
 		"texts": len(texts), "cases": len(cases), "accepted": accepted, "rejected": rejected, "not_expressible": skipped, "outcome_classes": classes.snapshot(),
@@ -327,4 +381,10 @@ func firstDiffAt(a, b string) int {
 		}
 	}
 	return n
+}
+
+// jsonEsc renders s the way encoding/json writes it inside a string (without the quotes).
+func jsonEsc(s string) string {
+	b, _ := json.Marshal(s)
+	return string(b[1 : len(b)-1])
 }
